@@ -435,3 +435,113 @@ def attribute_rule(repo: Repo, rep, prop: str, rule: str, extra_modules: Tuple[s
     probs, n = missing_attribute_problems(repo, mods)
     rep.check(not probs, rule, '%s:attributes-defined' % '+'.join(mods), '', '%d attribute reads through self, each defined for every receiver' % n,
               '; '.join(probs[:4]))
+
+
+# --------------------------------------------------------------------------- what is registered is unregistered on every exit
+
+_ADD_OPS = ('add', 'append', 'setdefault', 'appendleft')
+_DEL_OPS = ('discard', 'remove', 'pop', 'popleft', '__delitem__')
+
+
+def _registry_ops(fi: FuncInfo):
+    """(registry name, 'add' | 'del', key expression text) for the container operations of a function on attributes of
+    self / cls / a class / module-level names"""
+    def reg_name(e) -> Optional[str]:
+        if isinstance(e, ast.Attribute) and isinstance(e.value, ast.Name):
+            return e.attr if (e.value.id in ('self', 'cls') or e.value.id[:1].isupper()) else None
+        if isinstance(e, ast.Name) and e.id in fi.module.assigns:
+            return e.id
+        return None
+    out = []
+    for n in ast.walk(fi.node):
+        if isinstance(n, ast.Call) and isinstance(n.func, ast.Attribute) and n.args:
+            r = reg_name(n.func.value)
+            if r and n.func.attr in _ADD_OPS:
+                out.append((r, 'add', ast.unparse(n.args[0])))
+            elif r and n.func.attr in _DEL_OPS:
+                out.append((r, 'del', ast.unparse(n.args[0])))
+        elif isinstance(n, ast.Assign):
+            for t in n.targets:
+                if isinstance(t, ast.Subscript) and reg_name(t.value):
+                    out.append((reg_name(t.value), 'add', ast.unparse(t.slice)))
+        elif isinstance(n, ast.Delete):
+            for t in n.targets:
+                if isinstance(t, ast.Subscript) and reg_name(t.value):
+                    out.append((reg_name(t.value), 'del', ast.unparse(t.slice)))
+    return out
+
+
+def pairing_problems(repo: Repo, modules: Tuple[str, ...]) -> Tuple[List[str], int]:
+    """A function that enters a key into a registry of the package (a set / dict / list held by a class or an object: transactions
+    in progress, pending operations) through a *register* helper and removes it again through the matching *unregister* helper on
+    some path must do so on every path on which it ends normally -- also the ones that go through one of its own exception
+    handlers.  Register / unregister helpers are the functions that add / remove one of their parameters to / from the same
+    registry; which functions pair up is read from the code, not from names.  A call of the register helper in a test counts on the
+    branch where it answered true.  -> (problems, number of functions with a register / unregister pair examined)"""
+    from .fsm_model import exc_hierarchy
+    from .sym import SymClient, empty_state
+    reg_fns: Dict[str, str] = {}
+    unreg_fns: Dict[str, str] = {}
+    for fi in repo.all_functions():
+        params = set(fi.params)
+        ops = _registry_ops(fi)
+        adds = {r for r, k, key in ops if k == 'add' and key in params}
+        dels = {r for r, k, key in ops if k == 'del' and key in params}
+        if len(adds) == 1 and not dels:
+            reg_fns[fi.name] = adds.pop()
+        elif len(dels) == 1 and not adds:
+            unreg_fns[fi.name] = dels.pop()
+    pairs = {r for r in reg_fns.values()} & {r for r in unreg_fns.values()}
+    reg_fns = {k: v for k, v in reg_fns.items() if v in pairs}
+    unreg_fns = {k: v for k, v in unreg_fns.items() if v in pairs}
+    if not pairs:
+        return [], 0
+    hier = exc_hierarchy(repo)
+    probs: List[str] = []
+    n = 0
+
+    def ev(call, callee, client, state):
+        # (the helpers are looked into by the path engine: the container operation itself is the event, on the very path of the
+        # helper on which it happens)
+        recv, _, last = callee.rpartition('.')
+        rname = recv.rsplit('.', 1)[-1]
+        if rname in pairs and last in _ADD_OPS:
+            return 'reg:' + rname
+        if rname in pairs and last in _DEL_OPS:
+            return 'unreg:' + rname
+        return None
+    for fi in repo.all_functions():
+        if fi.module.name not in modules or fi.name in reg_fns or fi.name in unreg_fns:
+            continue
+        names = {x.func.attr if isinstance(x.func, ast.Attribute) else getattr(x.func, 'id', None)
+                 for x in ast.walk(fi.node) if isinstance(x, ast.Call)}
+        if not (names & set(reg_fns)) or not (names & set(unreg_fns)):
+            continue
+        n += 1
+        from .svc_model import svc_raises
+        c = SymClient(repo, fi, event_of=ev, hierarchy=hier, inline=lambda f_: f_.name in reg_fns or f_.name in unreg_fns, raises_of=svc_raises)
+        fin = c.final_states(c.run(empty_state()))
+        for s, how in fin:
+            if how.startswith('raise'):
+                continue
+            open_: Dict[Tuple[str, str], int] = {}
+            for e in s.trail:
+                if e.kind.startswith('reg:'):
+                    open_[(e.kind[4:], e.args[0] if e.args else '')] = e.line
+                elif e.kind.startswith('unreg:'):
+                    open_.pop((e.kind[6:], e.args[0] if e.args else ''), None)
+            for (r, key), line in open_.items():
+                via = [cn for cn in s.conds if cn.startswith('exc:')]
+                probs.append('%s enters %s into %s and ends%s without taking it out again, although other paths do: the key '
+                             'stays in the registry for good, so every later request that uses it is treated as a duplicate'
+                             % (fi.qualname, key, r, ' through its handler of %s' % via[-1][4:] if via else ' normally'))
+    return sorted(set(probs)), n
+
+
+def pairing_rule(repo: Repo, rep, prop: str, rule: str):
+    from .pitfalls import MEMO_SCOPE
+    rep.rule(rule, 'what a function enters into a registry of the package (transactions in progress, pending operations) and takes out '
+             'again on some path, it takes out on every path on which it ends normally, its own exception handlers included', 1)
+    probs, n = pairing_problems(repo, tuple(MEMO_SCOPE[prop]))
+    rep.check(not probs, rule, '%s:registries' % '+'.join(MEMO_SCOPE[prop]), '', '%d function(s) with a register / unregister pair, balanced '
+              'on every path' % n, '; '.join(probs[:3]))
